@@ -102,6 +102,57 @@ def weaken(it, contract, label, goal):
     return z3.Or(goal, *gs)
 
 
+def frame_check(world, contract, it, p, ex):
+    """Everything the function may have changed must be covered by its modifies clause
+    (callers assume the rest of the heap and of the ghost state is unchanged)."""
+    mods = list(contract.modifies)
+    if '*heap' in mods and '*ghost' in mods:
+        return
+    plain = {m for m in mods if '[' not in m}
+    at = {}
+    for m in mods:
+        if '[' in m:
+            key, expr = m[:-1].split('[', 1)
+            at.setdefault(key, []).append(expr)
+    it.spec = True
+    for key, arrs in p.heap.items():
+        cls, f = key.split('.')
+        owner, kind = world.field_kind(cls, f)
+        old = it.old_heap.get(key) or [z3.Const('H0!%s!%d' % (key, i), z3.ArraySort(z3.IntSort(), s_))
+                                       for i, s_ in enumerate(kind.leaf_sorts())]
+        if all(a.eq(o) for a, o in zip(arrs, old)):
+            continue
+        if key in plain or '*heap' in plain or any(('%s.%s' % (c, f)) in plain for c in world.classes):
+            continue
+        exprs = at.get(key) or [e for k2, es in at.items() if k2.split('.')[1] == f for e in es]
+        if exprs:
+            saved = (it.env, p.heap, p.globals)
+            it.env, p.heap, p.globals = dict(it.old_env), dict(it.old_heap), dict(it.old_globals)
+            try:
+                refs = []
+                for e in exprs:
+                    v = it.eval_text(e)
+                    refs.append(K.opt_inner(v).t if isinstance(v.kind, K.Opt) else v.t)
+            finally:
+                it.env, p.heap, p.globals = saved
+            r = p.fresh('frame!r', z3.IntSort())
+            goal = z3.ForAll([r], z3.Implies(
+                z3.And(r > 0, r < it.old_alloc, *[r != x for x in refs]),
+                z3.And(*[z3.Select(a, r) == z3.Select(o, r) for a, o in zip(arrs, old)])))
+            it.check(goal, 'frame[%s]' % key, 'frame: only the listed objects of %s change' % key, ex.node)
+        else:
+            it.check(z3.BoolVal(False), 'frame[%s]' % key,
+                     'frame: %s is written but not in the modifies clause' % key, ex.node)
+    for name, v in p.globals.items():
+        old = it.old_globals.get(name)
+        if old is None or all(a.eq(o) for a, o in zip(v.terms, old.terms)):
+            continue
+        if name in plain or '*ghost' in plain:
+            continue
+        it.check(z3.BoolVal(False), 'frame[ghost %s]' % name,
+                 'frame: ghost/module state %s changes but is not in the modifies clause' % name, ex.node)
+
+
 def run_path(world, contract, ex, ctx, prefix, report):
     p, it = setup_path(world, contract, ex, ctx, prefix)
     exit_kind, result, exc = None, K.NONE, None
@@ -156,6 +207,7 @@ def run_path(world, contract, ex, ctx, prefix, report):
             for i, e in enumerate(contract.ensures_exc):
                 it.check(weaken(it, contract, 'post_exc[%d]' % i, it.truth(it.eval_text(e))), 'post_exc[%d]' % i, 'exceptional postcondition', ex.node)
             report.exits['raise'] += 1
+        frame_check(world, contract, it, p, ex)
         report.completed_paths += 1
         if len(report.interp_samples) < 2:
             report.interp_samples.append(it)
